@@ -1,6 +1,9 @@
 import TempestVerif.Drv.Util
 import TempestVerif.Model.Warmup
 import TempestVerif.Model.Pipeline
+import TempestVerif.Model.RecSM
+import TempestVerif.Model.RecSM2
+import TempestVerif.Model.PipelineR
 /- line-protocol handlers of property C11.
    warm.Q | warm.F  bs=<n>:<nfin>;<n>:<nfin>;…   → the recorded linear-space evidences Z_1,…,Z_k
    warm.rep  fl=<string of 0/1, 1 = finite draw> picks=<nat list>
@@ -8,6 +11,18 @@ import TempestVerif.Model.Pipeline
      runs `Model.Pipeline.warmup` (the replacement step the pipeline theorems are about) on draws tagged 0..n-1,
      reweighting-step evidence 0
    (whole warm-up + annealing iterations of the pipeline model: `pipe.F` of Drv/C01)
+   warmR.Q  bs=<n>:<nfin>:<ndrawn>;…   → the evidences recorded by `Model.Warmup.runR` (rule of /repo 959029e: n_finite/n_drawn)
+   warmR.rep n=<n_particles> blocks=<flags>!<flags>!… picks=<nat list>     (flags: string of 0/1, one block per `np.random.rand`)
+       → <tags after the replacement>;<finiteness flags after>;<n_drawn>;<logz committed (Float hex)>   or `raise`
+     runs `Model.PipelineR.warmupL` — the redraw loop (cap 1000·n) and the replacement on the kept block; row j of block b is
+     tagged b·n + j; reweighting-step evidence 0
+   c11sm.run hb=<0|1> lb=<0|1> tapes=<tape>;<tape>…       tape = <block>!<block>!…:<picks>     (block = u rows)
+       rows joined by `,`, coordinates by `_`, rationals `p/q`; picks a nat list (`-` = none)
+       → U|X|L|B of the HISTORY after the warm-up iterations (batches `;`, rows `,`, coordinates `_`, `ninf` = −inf,
+         `-` = no batch) followed by ` ret=` and the blobs slot of every returned dictionary (`N` = None), or error:<k>
+     runs `Model.RecSM.iterateR` (the StateManager-level record model of C07 as of 959029e, `Model/RecSM2.lean`, about which
+     `Props/C11SM.lean` speaks) at
+     exact rationals with the harness's target: T u = 8u − 4, logl = −inf for x0 < 0 else −½ Σ x², blob = x0
 -/
 namespace Drv.C11
 open Drv Model.Warmup
@@ -34,8 +49,84 @@ def rep (args : List (String × String)) : Option String := do
   let (tags, ls, lz) := Model.Pipeline.warmup t 0.0
   pure (showList toString tags ++ ";" ++ String.ofList (ls.map fun v => if v.isSome then '1' else '0') ++ ";" ++ showFloat lz)
 
+/-! ### `Model.RecSM` warm-up iterations at exact rationals -/
+section sm
+open Model.RecSM
+
+def smT (u : List Rat) : List Rat := u.map fun c => 8 * c - 4
+def smLk (x : List Rat) : Option Rat × Rat :=
+  match x with
+  | [] => (some 0, 0)
+  | x0 :: _ => (if x0 < 0 then none else some (-(1 / 2 : Rat) * (x.map fun c => c * c).sum), x0)
+
+def smVec? (s : String) : Option (List Rat) := (s.splitOn "_").mapM parseRat?
+def smBlock? (rows : String) : Option (List (List Rat)) :=
+  if rows == "-" then some [] else (rows.splitOn ",").mapM smVec?
+def smTape? (s : String) : Option (TapeR (List Rat)) :=
+  match s.splitOn ":" with
+  | [blocks, pk] =>
+    match (blocks.splitOn "!").mapM smBlock?, parseNatList? pk with
+    | some bs, some pk => some ⟨true, bs, pk, [], []⟩
+    | _, _ => none
+  | _ => none
+
+def smShowVec (v : List Rat) : String := "_".intercalate (v.map showRat)
+def smRows {β : Type} (f : β → String) (l : List β) : String := if l.isEmpty then "-" else ",".intercalate (l.map f)
+def smBatches {β : Type} (f : β → String) (h : List (List β)) : String :=
+  if h.isEmpty then "-" else ";".intercalate (h.map (smRows f))
+def smL (l : Option Rat) : String := match l with | some v => showRat v | none => "ninf"
+
+def smRun (cfg : Cfg) (tapes : List (TapeR (List Rat))) : String :=
+  let rec go (s : St (List Rat) (List Rat) (Option Rat) Rat) (k : Nat) (rets : List String) :
+      List (TapeR (List Rat)) → String
+    | [] => s!"{smBatches smShowVec s.hist.u}|{smBatches smShowVec s.hist.x}|{smBatches smL s.hist.l}|{smBatches showRat s.hist.b} ret={";".intercalate rets.reverse}"
+    | t :: ts =>
+      match iterateR cfg smT smLk Option.isNone id (fun _ => true) s t with
+      | some r => go r.1 (k + 1) ((match r.2.b with | some b => smRows showRat b | none => "N") :: rets) ts
+      | none => s!"error:{k}"
+  go init 0 [] tapes
+
+end sm
+
+/-! ### the rule of /repo 959029e -/
+
+def parseB3? (s : String) : Option (Nat × Nat × Nat) :=
+  match s.splitOn ":" with
+  | [a, b, c] => match a.toNat?, b.toNat?, c.toNat? with
+    | some n, some f, some d => some (n, f, d)
+    | _, _, _ => none
+  | _ => none
+
+def warmR (α : Type) [Sc α] [Codec α] (args : List (String × String)) : String :=
+  match (getArg args "bs").bind fun s => (s.splitOn ";").mapM parseB3? with
+  | some bs => showList Codec.shw ((runR (α := α) [] bs).map (·.2))
+  | none => "bad-op"
+
+def repR (args : List (String × String)) : Option String := do
+  let n ← (getArg args "n").bind String.toNat?
+  let blocks ← (getArg args "blocks").bind fun s => (s.splitOn "!").mapM parseFlags?
+  let picks ← (getArg args "picks").bind parseNatList?
+  let tagged : List (Model.PipelineR.Block Float) :=
+    (List.range blocks.length).zipWith (fun b fl => ((List.range fl.length).map (· + b * n), fl)) blocks
+  match tagged with
+  | [] => none
+  | first :: pending =>
+    let rt : Model.PipelineR.RTape Float := ⟨⟨first.1, first.2, picks, [], []⟩, pending⟩
+    match Model.PipelineR.warmupL n rt 0.0 with
+    | none => pure "raise"
+    | some (tags, ls, lz, nd) =>
+      pure (showList toString tags ++ ";" ++ String.ofList (ls.map fun v => if v.isSome then '1' else '0') ++ ";" ++
+        toString nd ++ ";" ++ showFloat lz)
+
 def handle (cmd : String) (args : List (String × String)) : Option String :=
   match cmd with
+  | "warmR.Q" => some (warmR Rat args)
+  | "warmR.rep" => some ((repR args).getD "bad-op")
+  | "c11sm.run" =>
+    let b (k : String) : Option Bool := (getArg args k).map (· == "1")
+    match b "hb", b "lb", (getArg args "tapes").bind fun s => (s.splitOn ";").mapM smTape? with
+    | some hb, some lb, some tapes => some (smRun ⟨hb, lb, true⟩ tapes)
+    | _, _, _ => some "bad-op"
   | "warm.Q" => some (warm Rat args)
   | "warm.F" => some (warm Float args)
   | "warm.rep" => some ((rep args).getD "bad-op")
